@@ -12,6 +12,12 @@
 //!             iff a generator is configured, is one the recording generator handed out / exceeds every earlier value of
 //!             the monotonic generator in this (sequential) caller (for LWT-marked statements the presence of a
 //!             generated timestamp is not demanded - the property does not state it; a re-sent EXECUTE may repeat the value).
+//!             Every explicit case is run with each statement carrier {the object set_timestamp was called on, a clone
+//!             taken after set_timestamp, a clone on which set_timestamp is then called} (Statement, PreparedStatement, Batch).
+//!   clone:    component level - for Statement / PreparedStatement (plain, LWT) / Batch / batch members x 9 timestamps x
+//!             clone depth 1..3: get_timestamp() of the clone is the explicit one; the other setters (consistency, serial
+//!             consistency, idempotence, tracing, page size, request timeout, cached-metadata flag) are compared too and
+//!             listed in the evidence without being this property's verdict.
 //!   run:      4 tasks x 50 writes (QUERY / EXECUTE / BATCH rotating) over 2 nodes through one session with the
 //!             monotonic generator: 200 pairwise distinct timestamps at the nodes, strictly increasing along each task.
 use h_mock::sess::{self, RecordingGen};
@@ -73,10 +79,12 @@ struct Case {
     kind: usize,
     /// index into TS, or None = the statement sets no timestamp
     ts: Option<usize>,
+    /// index into HOWS: which object (the one set_timestamp was called on, or a clone) is executed
+    how: usize,
 }
 impl Case {
     fn json(&self) -> Value {
-        json!({"leg":"mock","part":"explicit","generator":GENS[self.generator],"kind":KINDS[self.kind],"explicit_timestamp":self.ts.map(|i| TS[i])})
+        json!({"leg":"mock","part":"explicit","generator":GENS[self.generator],"kind":KINDS[self.kind],"explicit_timestamp":self.ts.map(|i| TS[i]),"carrier":HOWS[self.how]})
     }
 }
 
@@ -158,30 +166,81 @@ fn request_timestamp(e: &LogEntry) -> Option<Option<i64>> {
     }
 }
 
+/// The three ways a caller ends up holding the statement it executes.
+const HOWS: [&str; 3] = ["original", "clone-taken-after-set_timestamp", "clone-then-set_timestamp-on-the-clone"];
+trait Carrier: Clone {
+    fn set_ts(&mut self, ts: Option<i64>);
+    fn get_ts(&self) -> Option<i64>;
+}
+impl Carrier for Statement {
+    fn set_ts(&mut self, ts: Option<i64>) {
+        self.set_timestamp(ts)
+    }
+    fn get_ts(&self) -> Option<i64> {
+        self.get_timestamp()
+    }
+}
+impl Carrier for PreparedStatement {
+    fn set_ts(&mut self, ts: Option<i64>) {
+        self.set_timestamp(ts)
+    }
+    fn get_ts(&self) -> Option<i64> {
+        self.get_timestamp()
+    }
+}
+impl Carrier for Batch {
+    fn set_ts(&mut self, ts: Option<i64>) {
+        self.set_timestamp(ts)
+    }
+    fn get_ts(&self) -> Option<i64> {
+        self.get_timestamp()
+    }
+}
+fn carry<T: Carrier>(mut x: T, how: usize, ts: Option<i64>) -> T {
+    match how {
+        0 => {
+            x.set_ts(ts);
+            x
+        }
+        1 => {
+            x.set_ts(ts);
+            let c = x.clone();
+            drop(x);
+            c
+        }
+        _ => {
+            let mut c = x.clone();
+            drop(x);
+            c.set_ts(ts);
+            c
+        }
+    }
+}
+
 async fn drive(env: &Env, c: &Case) -> Result<(), String> {
     let ts = c.ts.map(|i| TS[i]);
     let s = &env.session;
     match KINDS[c.kind] {
         "query" => {
             let mut st = Statement::new(Q_INSERT);
-            st.set_timestamp(ts);
+            let st = carry(st, c.how, ts);
             s.query_unpaged(st, ()).await.map(|_| ()).map_err(|e| e.to_string())
         }
         "query-values" => {
             let mut st = Statement::new(P_INSERT);
-            st.set_timestamp(ts);
+            let st = carry(st, c.how, ts);
             s.query_unpaged(st, (5i32, "five")).await.map(|_| ()).map_err(|e| e.to_string())
         }
         "caching-execute" => {
             let mut st = Statement::new(P_INSERT);
-            st.set_timestamp(ts);
+            let st = carry(st, c.how, ts);
             env.caching.execute_unpaged(st, (9i32, "nine")).await.map(|_| ()).map_err(|e| e.to_string())
         }
         "caching-execute-paged" => {
             use futures::StreamExt;
             let mut st = Statement::new(P_SELECT);
             st.set_page_size(1);
-            st.set_timestamp(ts);
+            let st = carry(st, c.how, ts);
             let pager = env.caching.execute_iter(st, (1i32,)).await.map_err(|e| e.to_string())?;
             let mut rows = pager.rows_stream::<(i32, String)>().map_err(|e| e.to_string())?;
             let mut n = 0;
@@ -206,7 +265,7 @@ async fn drive(env: &Env, c: &Case) -> Result<(), String> {
                 b.append_statement(Statement::new(P_INSERT));
                 values.push(Box::new((8i32, "eight")));
             }
-            b.set_timestamp(ts);
+            let b = carry(b, c.how, ts);
             if k == "caching-prepare-batch-mixed" {
                 let prepared = env.caching.prepare_batch(&b).await.map_err(|e| e.to_string())?;
                 s.batch(&prepared, values).await.map(|_| ()).map_err(|e| e.to_string())
@@ -216,12 +275,12 @@ async fn drive(env: &Env, c: &Case) -> Result<(), String> {
         }
         "query-values-lwt" => {
             let mut st = Statement::new(L_INSERT);
-            st.set_timestamp(ts);
+            let st = carry(st, c.how, ts);
             s.query_unpaged(st, (5i32, "five")).await.map(|_| ()).map_err(|e| e.to_string())
         }
         k @ ("execute" | "execute-lwt" | "execute-unprepared-resend") => {
             let mut ps = if k == "execute-lwt" { env.lwt_insert.clone() } else { env.insert.clone() };
-            ps.set_timestamp(ts);
+            let ps = carry(ps, c.how, ts);
             if k == "execute-unprepared-resend" {
                 env.cluster.evict_prepared(0, Some(&mockcluster::prepared_id(P_INSERT)));
             }
@@ -229,7 +288,7 @@ async fn drive(env: &Env, c: &Case) -> Result<(), String> {
         }
         "execute-single-page-lwt" => {
             let mut ps = env.lwt_update.clone();
-            ps.set_timestamp(ts);
+            let ps = carry(ps, c.how, ts);
             let (_, state) = s.execute_single_page(&ps, (1i32,), scylla::response::PagingState::start()).await.map_err(|e| e.to_string())?;
             match state {
                 scylla::response::PagingStateResponse::HasMorePages { state } => s.execute_single_page(&ps, (1i32,), state).await.map(|_| ()).map_err(|e| e.to_string()),
@@ -239,7 +298,7 @@ async fn drive(env: &Env, c: &Case) -> Result<(), String> {
         k @ ("execute-paged" | "execute-paged-lwt") => {
             use futures::StreamExt;
             let mut ps = if k == "execute-paged" { env.select.clone() } else { env.lwt_update.clone() };
-            ps.set_timestamp(ts);
+            let ps = carry(ps, c.how, ts);
             let pager = s.execute_iter(ps, (1i32,)).await.map_err(|e| e.to_string())?;
             let mut st = pager.rows_stream::<(i32, String)>().map_err(|e| e.to_string())?;
             let mut n = 0;
@@ -264,7 +323,7 @@ async fn drive(env: &Env, c: &Case) -> Result<(), String> {
                 b.append_statement(Statement::new(P_INSERT)); // unprepared with values: prepared on the fly
                 values.push(Box::new((8i32, "eight")));
             }
-            b.set_timestamp(ts);
+            let b = carry(b, c.how, ts);
             s.batch(&b, values).await.map(|_| ()).map_err(|e| e.to_string())
         }
     }
@@ -338,18 +397,135 @@ async fn check_explicit(r: &Report, env: &Env, c: &Case, last_mono: &mut i64) {
 fn explicit_cases(generator: usize) -> Vec<Case> {
     let mut v = Vec::new();
     for kind in 0..KINDS.len() {
-        v.push(Case { generator, kind, ts: None });
-        for t in 0..TS.len() {
-            v.push(Case { generator, kind, ts: Some(t) });
+        v.push(Case { generator, kind, ts: None, how: 0 });
+        for how in 0..HOWS.len() {
+            for t in 0..TS.len() {
+                v.push(Case { generator, kind, ts: Some(t), how });
+            }
         }
-        v.push(Case { generator, kind, ts: None }); // generated again after explicit ones
+        v.push(Case { generator, kind, ts: None, how: 1 }); // generated again after explicit ones
     }
     v
+}
+
+/// Component level: `clone()` of every statement carrier keeps what the setters stored. The timestamp getter is C18's
+/// ("an explicit timestamp is sent unchanged" - the connection reads it from whatever copy it is handed); the other
+/// getters are compared too and reported in the evidence, but are not this property's verdict.
+fn check_clone_getters(r: &Report, env: &Env) {
+    use scylla::statement::{Consistency, SerialConsistency};
+    use std::time::Duration;
+    let mut others: Vec<String> = Vec::new();
+    fn ts_check<T: Carrier>(r: &Report, name: &str, base: &T) {
+        for t in TS {
+            for depth in 1..=3 {
+                let mut x = base.clone();
+                x.set_ts(Some(t));
+                let mut c = x.clone();
+                for _ in 1..depth {
+                    c = c.clone();
+                }
+                r.eval(1);
+                r.counters.add("clone_timestamp_getter_checks", 1);
+                if c.get_ts() != Some(t) {
+                    let case = json!({"leg":"mock","part":"clone","carrier":name,"explicit_timestamp":t,"clone_depth":depth});
+                    r.violation(&format!("clone:{name}:timestamp"), &format!("{name}: set_timestamp(Some({t})) then clone() x{depth}: get_timestamp() = {:?}", c.get_ts()), case);
+                    return;
+                }
+            }
+        }
+        let mut x = base.clone();
+        x.set_ts(Some(5));
+        x.set_ts(None);
+        if x.clone().get_ts().is_some() {
+            r.violation(&format!("clone:{name}:timestamp"), &format!("{name}: set_timestamp(None) then clone(): a timestamp appeared"), json!({"leg":"mock","part":"clone","carrier":name}));
+        }
+    }
+    ts_check(r, "Statement", &Statement::new(P_INSERT));
+    ts_check(r, "PreparedStatement", &env.insert);
+    ts_check(r, "PreparedStatement-lwt", &env.lwt_insert);
+    let mut b = Batch::new(BatchType::Logged);
+    b.append_statement(env.insert.clone());
+    b.append_statement(Statement::new(Q_INSERT));
+    ts_check(r, "Batch", &b);
+    // batch members keep their own settings when the batch (or the member) is cloned
+    for t in TS {
+        let mut m = env.insert.clone();
+        m.set_timestamp(Some(t));
+        let mut st = Statement::new(Q_INSERT);
+        st.set_timestamp(Some(t));
+        let mut b = Batch::new(BatchType::Unlogged);
+        b.append_statement(m.clone());
+        b.append_statement(st);
+        let b2 = b.clone();
+        for (i, member) in b2.statements.iter().enumerate() {
+            let got = match member {
+                scylla::statement::batch::BatchStatement::Query(q) => q.get_timestamp(),
+                scylla::statement::batch::BatchStatement::PreparedStatement(p) => p.get_timestamp(),
+                _ => Some(t),
+            };
+            r.eval(1);
+            r.counters.add("clone_timestamp_getter_checks", 1);
+            if got != Some(t) {
+                r.violation("clone:batch-member:timestamp", &format!("batch member {i} had set_timestamp(Some({t})); after append_statement(clone) + Batch::clone its get_timestamp() = {got:?}"), json!({"leg":"mock","part":"clone","carrier":"batch-member","explicit_timestamp":t}));
+                return;
+            }
+        }
+    }
+    // the other setters (not C18's verdict)
+    macro_rules! other {
+        ($name:expr, $obj:expr, $set:expr, $get:expr) => {{
+            let mut x = $obj.clone();
+            $set(&mut x);
+            let want = $get(&x);
+            let got = $get(&x.clone());
+            r.counters.add("clone_other_getter_checks", 1);
+            if format!("{want:?}") != format!("{got:?}") {
+                others.push(format!("{}: {want:?} became {got:?}", $name));
+            }
+        }};
+    }
+    let ps = &env.select;
+    for c in sess::ALL_CONSISTENCIES {
+        other!("PreparedStatement consistency", ps, |x: &mut PreparedStatement| x.set_consistency(c), |x: &PreparedStatement| x.get_consistency());
+        other!("Statement consistency", Statement::new(P_SELECT), |x: &mut Statement| x.set_consistency(c), |x: &Statement| x.get_consistency());
+        other!("Batch consistency", b, |x: &mut Batch| x.set_consistency(c), |x: &Batch| x.get_consistency());
+    }
+    for sc in [None, Some(SerialConsistency::Serial), Some(SerialConsistency::LocalSerial)] {
+        other!("PreparedStatement serial consistency", ps, |x: &mut PreparedStatement| x.set_serial_consistency(sc), |x: &PreparedStatement| x.get_serial_consistency());
+        other!("Statement serial consistency", Statement::new(P_SELECT), |x: &mut Statement| x.set_serial_consistency(sc), |x: &Statement| x.get_serial_consistency());
+        other!("Batch serial consistency", b, |x: &mut Batch| x.set_serial_consistency(sc), |x: &Batch| x.get_serial_consistency());
+    }
+    for flag in [false, true] {
+        other!("PreparedStatement idempotence", ps, |x: &mut PreparedStatement| x.set_is_idempotent(flag), |x: &PreparedStatement| x.get_is_idempotent());
+        other!("Statement idempotence", Statement::new(P_SELECT), |x: &mut Statement| x.set_is_idempotent(flag), |x: &Statement| x.get_is_idempotent());
+        other!("Batch idempotence", b, |x: &mut Batch| x.set_is_idempotent(flag), |x: &Batch| x.get_is_idempotent());
+        other!("PreparedStatement tracing", ps, |x: &mut PreparedStatement| x.set_tracing(flag), |x: &PreparedStatement| x.get_tracing());
+        other!("Statement tracing", Statement::new(P_SELECT), |x: &mut Statement| x.set_tracing(flag), |x: &Statement| x.get_tracing());
+        other!("Batch tracing", b, |x: &mut Batch| x.set_tracing(flag), |x: &Batch| x.get_tracing());
+        other!("PreparedStatement use_cached_result_metadata", ps, |x: &mut PreparedStatement| x.set_use_cached_result_metadata(flag), |x: &PreparedStatement| x.get_use_cached_result_metadata());
+    }
+    for page in [1, 7, i32::MAX] {
+        other!("PreparedStatement page size", ps, |x: &mut PreparedStatement| x.set_page_size(page), |x: &PreparedStatement| x.get_page_size());
+        other!("Statement page size", Statement::new(P_SELECT), |x: &mut Statement| x.set_page_size(page), |x: &Statement| x.get_page_size());
+    }
+    for to in [None, Some(Duration::from_millis(1)), Some(Duration::from_secs(3600))] {
+        other!("PreparedStatement request timeout", ps, |x: &mut PreparedStatement| x.set_request_timeout(to), |x: &PreparedStatement| x.get_request_timeout());
+        other!("Statement request timeout", Statement::new(P_SELECT), |x: &mut Statement| x.set_request_timeout(to), |x: &Statement| x.get_request_timeout());
+        other!("Batch request timeout", b, |x: &mut Batch| x.set_request_timeout(to), |x: &Batch| x.get_request_timeout());
+    }
+    let _ = Consistency::One;
+    if !others.is_empty() {
+        eprintln!("NOTE (not a C18 verdict): clone() changed other statement settings: {others:?}");
+    }
+    r.note("clone_other_getter_mismatches", json!(others));
 }
 
 fn run_explicit(r: &Report, generator: usize, cases: Vec<Case>) {
     sess::block_on(2, async {
         let env = setup(generator, 1).await;
+        if generator == 0 || cases.is_empty() {
+            check_clone_getters(r, &env);
+        }
         let mut last = i64::MIN;
         for c in &cases {
             check_explicit(r, &env, c, &mut last).await;
@@ -453,11 +629,14 @@ fn main() {
     if let Some(case) = r.replay_case() {
         if case["part"] == "run" {
             run_concurrent(&r);
+        } else if case["part"] == "clone" {
+            run_explicit(&r, 0, vec![]);
         } else {
             let g = GENS.iter().position(|x| Some(*x) == case["generator"].as_str()).unwrap_or(0);
             let k = KINDS.iter().position(|x| Some(*x) == case["kind"].as_str()).unwrap_or(0);
             let ts = case["explicit_timestamp"].as_i64().and_then(|t| TS.iter().position(|x| *x == t));
-            run_explicit(&r, g, vec![Case { generator: g, kind: k, ts }]);
+            let how = HOWS.iter().position(|x| Some(*x) == case["carrier"].as_str()).unwrap_or(0);
+            run_explicit(&r, g, vec![Case { generator: g, kind: k, ts, how }]);
         }
         r.finish_replay();
     }
